@@ -6,7 +6,8 @@ import Model.MongoMig
 
 `Gen/MongoMig.lean` is produced from `/repo/vakt/storage/mongo.py` on every run: the loop every data migration of the MongoDB storage
 runs its per-document processor through.  For every processor (a function that converts a document or raises - `Irreversible` or
-anything else) and every collection: the documents whose processor raised are exactly the ones reported as failed, **no
+anything else) and every collection: the documents whose processor raised are exactly the ones collected as failed, the error-level
+report is written exactly when that list is not empty, **no
 `replace_one` is issued for them** (they are left as they are), and every other document is replaced, under its `uid`, by what the
 processor returned - the clause of C19 that policies which cannot be converted are left untouched and reported, never dropped or
 silently altered.
@@ -37,8 +38,18 @@ def eachBody (proc : V) : V → List V → (List V → M) → (List V → M) →
 
 def docV (d : MDoc) : V := .py (.dict d)
 
-/-- what follows the loop: the failed list and the collection -/
-def eachDone : List V → M := fun r2 => pairM (pure (stGet r2 1)) (pure (stGet r2 0))
+/-- what follows the loop: the failed list, whether the error-level report is written (the `if failed_policies:` of the source), and
+the collection -/
+def eachDone : List V → M := fun r2 => (iteM (pure (stGet r2 1))
+      (pairM (pure (stGet r2 1)) (pairM cTrue (pure (stGet r2 0))))
+      (pairM (pure (stGet r2 1)) (pairM cFalse (pure (stGet r2 0)))))
+
+/-- the result of a pass: the failed documents, **the report is written exactly when there is one**, the collection -/
+def eachResult (failed : List PyVal) (w : V) : M :=
+  .ok (.seq [.py (.list failed), .seq [.py (.bool (!failed.isEmpty)), w]])
+
+theorem eachDone_eq (failed : List PyVal) (w : V) : eachDone [w, .py (.list failed)] = eachResult failed w := by
+  cases failed <;> rfl
 
 theorem stGet2_0 (a b : V) : stGet [a, b] 0 = a := rfl
 theorem stGet2_1 (a b : V) : stGet [a, b] 1 = b := rfl
@@ -46,9 +57,9 @@ theorem stGet2_1 (a b : V) : stGet [a, b] 1 = b := rfl
 theorem each_loop (f : MDoc → Except MErr MDoc) (all : List MDoc) (rest : List MDoc) :
     ∀ (reps : List (PyVal × MDoc)) (failed : List PyVal),
       loopS (rest.map docV) (eachBody (.mproc f)) [.mcoll all reps, .py (.list failed)] eachDone =
-        .ok (.seq [.py (.list (failed ++ (eachCalls f rest).2.map PyVal.dict)), .mcoll all (reps ++ (eachCalls f rest).1)]) := by
+        eachResult (failed ++ (eachCalls f rest).2.map PyVal.dict) (.mcoll all (reps ++ (eachCalls f rest).1)) := by
   induction rest with
-  | nil => intro reps failed; simp [loopS, eachCalls, pairM, eachDone, stGet]
+  | nil => intro reps failed; simp [loopS, eachCalls, eachDone_eq]
   | cons d tail ih =>
     intro reps failed
     have hsub : ∀ d' : MDoc, subscriptM (.ok (V.py (.dict d'))) (cStr "uid") =
@@ -70,12 +81,12 @@ theorem each_loop (f : MDoc → Except MErr MDoc) (all : List MDoc) (rest : List
       | some u =>
         simp only [replaceOneM, bindM_ok]
         rw [ih (reps ++ [(u, d')]) failed]
-        simp [tryElseM, List.append_assoc]
+        simp [tryElseM, eachResult, List.append_assoc]
 
 /-- **`_each_doc` as written in the source** -/
 theorem gen_each_doc (self : V) (f : MDoc → Except MErr MDoc) (docs : List MDoc) :
     each_doc_MongoMigration self (.mproc f) (.mcoll docs []) =
-      .ok (.seq [.py (.list ((eachCalls f docs).2.map PyVal.dict)), .mcoll docs (eachCalls f docs).1]) := by
+      eachResult ((eachCalls f docs).2.map PyVal.dict) (.mcoll docs (eachCalls f docs).1) := by
   have h := each_loop f docs docs [] []
   simp only [List.nil_append] at h
   have e : each_doc_MongoMigration self (.mproc f) (.mcoll docs []) =
